@@ -267,6 +267,9 @@ def schema_line(i, s):
     return "%s %s schema %s %s" % (i, COMP, tg.hx(s.dsl()), tg.hx(s.yang().encode()))
 
 
+STATE = {"aborts": 0, "noted": False}
+
+
 def run_impl(cx, schemas, lines, on_crash=None):
     """One harness process per schema (a sanitizer abort then costs one schema registration, not all of them): the schema
     registration in front, the lines of that schema, a leak check; after an abort the rest is re-run in a new process."""
@@ -277,17 +280,28 @@ def run_impl(cx, schemas, lines, on_crash=None):
     for l in lines:
         groups.setdefault(l.split()[3], []).append(l)
     rep, crashed = {}, []
+    cap = cx.n(600, 4000)
     for dsl, ls in groups.items():
         head = [schema_line("S0", by_dsl[dsl])]
         pending = ls
         for _ in range(400):
-            r, crashes = proto.run_lines([exe], head + pending + ["zz %s leakcheck" % COMP], timeout=1200, env=ENV, restart=False)
+            if STATE["aborts"] > cap:
+                # the implementation aborts on (almost) everything: every abort is already recorded as a failure, stop here
+                if not STATE["noted"]:
+                    cx.notes.append("more than %d sanitizer aborts: the remaining requests were not run" % cap)
+                    STATE["noted"] = True
+                for l in pending:
+                    rep[l.split()[0]] = ["err", "NotRun"]
+                break
+            r, crashes = proto.run_lines([exe], head + pending + ["zz %s leakcheck" % COMP], timeout=45 + len(pending) // 20, env=ENV,
+                                         restart=False)
             for c in crashes:
                 if c.get("at_exit") or c.get("id") == "zz":
                     cx.fail(COMP, "harness exit status %s after the last request (%s)" % (c.get("rc"), sanitizer_line(c.get("stderr", ""))),
                             {"op": "exit", "law": "exit", "stderr": c.get("stderr", "")[-1500:], "first_line": pending[0][:300]})
                 else:
                     crashed.append(c)
+                    STATE["aborts"] += 1 if c.get("kind") != "Timeout" else cap // 3 + 1        # three hangs are enough
             if r.get("zz", ["ok", "0"])[:2] == ["ok", "1"]:
                 cx.fail(COMP, "memory leaked by the harness run (LeakSanitizer)", {"op": "exit", "law": "leak", "first_line": pending[0][:300]})
             r.pop("zz", None)
@@ -494,6 +508,8 @@ def process_merge(cx, schemas, cases, tag, rng, all_opts=True, laws=1.3, budget=
         i = l.split()[0]
         c, o, api, k = idx[i]
         a, b = ri.get(i, ["err", "NoReply"]), rm.get(i, ["err", "NoReply"])
+        if a[:2] == ["err", "NotRun"]:
+            continue
         nontrivial = a[0] == "ok" and a[1] not in (c.t, "-")
         cx.count((c.s.name, c.t, c.src, o, api), nontrivial, "merge:%s:%s" % (("api%d" % api), a[0] if a[0] == "ok" else a[1]))
         if i in crash_ids:
@@ -547,6 +563,8 @@ def process_merge(cx, schemas, cases, tag, rng, all_opts=True, laws=1.3, budget=
 
 
 def eval_mlaw(cx, c, o, reply):
+    if reply[:2] == ["err", "NotRun"]:
+        return
     if reply[0] != "ok":
         cx.fail(COMP, "mlaw op failed: " + " ".join(reply[:2]), payload(c, "mlaw", "harness", " ".join(reply[:2]), o))
         return
@@ -592,6 +610,8 @@ def process_indep(cx, schemas, cases, tag, rng, per_case, budget=None):
 
 
 def eval_indep(cx, c, o, seed, r):
+    if r[:2] == ["err", "NotRun"]:
+        return
     if r[0] != "ok":
         cx.fail(COMP, "indep op failed: " + " ".join(r[:2]), payload(c, "indep", "harness", " ".join(r[:2]), o, {"seed": seed}))
         return
@@ -661,6 +681,8 @@ def process_dup(cx, schemas, cases, tag, rng, per_tree, laws_per_tree):
         i = l.split()[0]
         c, ni, o, mode, feat = idx[i]
         a, b = ri.get(i, ["err", "NoReply"]), rm.get(i, ["err", "NoReply"])
+        if a[:2] == ["err", "NotRun"]:
+            continue
         cx.count(("dup", c.s.name, c.t, ni, o, mode), a[0] == "ok", "merge:dup:mode%d:%s" % (mode, a[0] if a[0] == "ok" else a[1]))
         if i in crash_ids:
             cx.fail(COMP, "harness aborted in lyd_dup (%s)" % sanitizer_line(crash_ids[i].get("stderr", "")),
@@ -686,6 +708,8 @@ def process_dup(cx, schemas, cases, tag, rng, per_tree, laws_per_tree):
 
 
 def eval_dlaw(cx, c, ni, o, mode, seed, feat, r):
+    if r[:2] == ["err", "NotRun"]:
+        return
     if r[0] != "ok":
         cx.fail(COMP, "dlaw op failed: " + " ".join(r[:2]), dup_payload(c, "dlaw", "harness", " ".join(r[:2]), ni, o, mode, seed, feat))
         return
@@ -798,6 +822,7 @@ def exhaustive_cases(cx):
 # ----------------------------------------------------------------------------------------------------
 
 def run(cx):
+    STATE["aborts"], STATE["noted"] = 0, False
     cx.rule("merge/dup: target = random valid tree over random S1 schemas (+ 2 hand schemas: sorted lists next to user-ordered / key-less / "
             "state lists; defaults at every level), source = random edit of it / independent / same / minimal / empty; trees built and "
             "validated by libyang; shares with metadata and with foreign flag patterns; merge option sets x 3 APIs, 32 dup option "
